@@ -483,8 +483,20 @@ def check(idx: Index, rep: Report, tier: str) -> str:
     loops = [w for w in walk_local(f.node) if isinstance(w, ast.For) and unparse(w.iter) == "self.rewrite_patterns"]
     ok = False
     if loops:
-        body = [unparse(s) for s in loops[0].body]
-        ok = body[:2] == [f"{unparse(loops[0].target)}.match_and_rewrite(op, rewriter)", "if rewriter.has_done_action:\n    return"]
+        from ..astutil import conjuncts as _cj
+
+        head = cfg.node_of(loops[0])
+        var = unparse(loops[0].target)
+        mcalls = [c for c in calls_in(loops[0]) if call_attr(c) == "match_and_rewrite" and isinstance(c.func, ast.Attribute) and unparse(c.func.value) == var]
+
+        def no_action(n_: int, m_: int, lab) -> bool:
+            a_ = cfg.nodes[n_].ast
+            if a_ is None or lab not in ("T", "F") or not isinstance(a_, ast.expr):
+                return False
+            return any(unparse(t_) == "rewriter.has_done_action" and not pol for t_, pol in _cj(a_, lab == "T"))
+
+        # after a pattern ran, the next pattern (loop head) is reached only along an edge on which the flag is False
+        ok = bool(mcalls) and all(cfg.path_avoiding(cfg.node_of(c), head, lambda n_: False, follow_exc=False, edge_ok=lambda n_, m_, lab: not no_action(n_, m_, lab)) is None for c in mcalls)
     (r6.ok(f.fq + ":first-match", f"{f.loc} return after the first pattern that acted") if ok else r6.fail(f.fq + ":first-match", Finding("C11.R6", f.fq, "first-match", "the applier does not return right after the first pattern that set has_done_action (a second pattern could run on an erased/replaced op)", f.loc)))
     direct = [c for c in calls_in(f.node) if isinstance(c.func, ast.Attribute) and c.func.attr in VALUE_MUTATORS and unparse(c.func.value) not in ("rewriter",)]
     if direct:
